@@ -317,7 +317,9 @@ func genC18(t *rapid.T) c18Case {
 			return genBytesN(t, "h", 32)
 		}
 	}
-	scripts := []HexBytes{{}, {0}, {0, 0}, {1}, {0, 0xff}, genBytes(t, "s", 0, 30)}
+	// a locking script may begin with 0xef and even look like a CashToken prefix; it is still just a script
+	tokenLike := append(append(HexBytes{0xef}, bytes.Repeat([]byte{byte(rapid.IntRange(0, 255).Draw(t, "tl"))}, 32)...), 0x10, 0x05, 0x51)
+	scripts := []HexBytes{{}, {0}, {0, 0}, {1}, {0, 0xff}, genBytes(t, "s", 0, 30), tokenLike, append(HexBytes{0xef}, genBytes(t, "ef", 0, 40)...)}
 	for i := 0; i < nin; i++ {
 		idx := uint32(rapid.IntRange(0, 3).Draw(t, "idx"))
 		if rapid.IntRange(0, 2).Draw(t, "bigidx") == 0 { // indices whose byte order matters
